@@ -45,7 +45,10 @@ Section Desc.
   Record pflags := mkpf { p_over : bool; p_cache : bool }.
 
   (* an entry of SpecClassMetadata.attrs (a managed attribute):
-     a_default  Attr.default (None = MISSING)
+     a_default  the value a newly constructed instance of type(obj) holds for
+                it: Attr.lookup_default_value(type(obj)) — the default, the
+                result of the default factory, or the overriding class
+                attribute of a (spec or plain) subclass; None = MISSING
      a_masked   Some flags when the class attribute of that name is a
                 spec_property (Attr.is_masked): the annotation makes it a
                 managed attribute, the descriptor stays in the class
@@ -77,8 +80,8 @@ Section Desc.
     | None => match member_of cd n with Some m => m_prop m | None => None end
     end.
 
-  (* the default a deleted attribute is reset to (DelAttrMethod: managed, has a
-     default, not masked) *)
+  (* the default a deleted attribute is reset to (DelAttrMethod: managed, not
+     masked, lookup_default_value(type(self)) is not MISSING) *)
   Definition default_of (cd : cdesc) (n : name) : option V :=
     match attr_of cd n with
     | Some a => match a_masked a with None => a_default a | Some _ => None end
